@@ -67,7 +67,8 @@ OpsOf(f) ==
                      {QOp("Purge", "if", i, q, 0) : i \in GIfs, q \in GQs}
                      \cup {[O0("PutMany", "if", i) EXCEPT !.batch = b] : i \in GIfs, b \in Batches}
     [] f = "sub" -> {QOp("Subscribe", "if", i, q, s) : i \in GIfs, q \in GQs, s \in {s \in GSubs : ~st.subs[s].used}}
-    [] f = "unsub" -> {SlotOp("CancelSub", "if", s) : s \in {s \in GSubs : st.subs[s].active /\ ~st.subs[s].lazy}}
+    \* (also subscriptions that were cancelled before: a second cancel must be harmless)
+    [] f = "unsub" -> {SlotOp("CancelSub", "if", s) : s \in {s \in GSubs : st.subs[s].used /\ ~st.subs[s].lazy}}
     [] f = "hook" -> IF CacheOn THEN {} ELSE
                      {HookOp(q, h, ph, beh) : q \in GQs, h \in {h \in GHooks : ~st.hooks[h].used}, ph \in {PhaseSets[j] : j \in GPhases},
                                                beh \in {"pass", "replace", "veto"}}
@@ -130,7 +131,7 @@ AuxAfter(s, o, x, a) ==
     IN [cached |-> IF CacheOn /\ o.via = "if" /\ o.i = cfg.cachei /\ o.k # 0 THEN a.cached \cup {o.k} ELSE a.cached,
         wlog |-> wl,
         from |-> IF o.op \in {"Subscribe", "Qsub"} /\ x.res.err = "ok" THEN [a.from EXCEPT ![o.slot] = Len(a.wlog)] ELSE a.from,
-        to |-> IF o.op = "CancelSub" /\ x.res.err = "ok" THEN [a.to EXCEPT ![o.slot] = Len(wl)] ELSE a.to,
+        to |-> IF o.op = "CancelSub" /\ x.res.err = "ok" /\ a.to[o.slot] < 0 THEN [a.to EXCEPT ![o.slot] = Len(wl)] ELSE a.to,
         got |-> [t \in Slots |-> a.got[t] \o x.feeds[t].items],
         quiet |-> a.quiet \/ quietbulk]
 FeedExact(s, a) ==
